@@ -305,8 +305,8 @@ func checkRel(c relCase) harness.Outcome {
 					return fail("sqrt(%v)^2 = %v", ax, v)
 				}
 			}
-			if ax < 700 {
-				if v := get("Math.log(Math.exp(" + l + "))"); !es5.MathClose(v, ax, 1e-9) && ax > 1e-9 {
+			if ax < 700 && ax > 1e-3 { // below that exp(x) = 1+x loses the digits of x: the composition is ill-conditioned, not wrong
+				if v := get("Math.log(Math.exp(" + l + "))"); !es5.MathClose(v, ax, 1e-9) {
 					return fail("log(exp(%v)) = %v", ax, v)
 				}
 			}
